@@ -1,9 +1,21 @@
 """Parallel replay: TLC's emitted cases are streamed to worker processes which run them
 against the real library and write observation shards."""
-import os, glob, importlib, multiprocessing as mp
+import os, glob, json, signal, importlib, multiprocessing as mp
 from . import common as C
 
 _W = {}
+# library calls that did not return: verdicts ["VIOL", "*", "CallReturns", k, [family module, operation]]
+# collected by replay_stream, picked up by the driver
+HANG_VERDICTS, HANG_FILES = [], []
+CASE_TIMEOUT = float(os.environ.get("VERIF_CASE_TIMEOUT", "45"))
+
+
+class CaseHang(BaseException):
+    """raised by the per-case alarm: a call into the library did not return in time"""
+
+
+def _alarm(signum, frame):
+    raise CaseHang()
 
 
 def _init(prefix, modname, shard, setup_args, fn="replay"):
@@ -12,17 +24,38 @@ def _init(prefix, modname, shard, setup_args, fn="replay"):
     _W["writer"] = C.ObsWriter("%s_w%05d" % (prefix, os.getpid()), shard)
     _W["mod"] = importlib.import_module(modname)
     _W["fn"] = getattr(_W["mod"], fn)
+    _W["hangs"], _W["prefix"], _W["modname"] = 0, prefix, modname
+    signal.signal(signal.SIGALRM, _alarm)
     if hasattr(_W["mod"], "worker_setup"):
         _W["mod"].worker_setup(*setup_args)
+
+
+def _opname(t):
+    if isinstance(t, dict):
+        op = t.get("op")
+        if isinstance(op, dict) and "name" in op:
+            return str(op["name"])
+    return "case"
 
 
 def _work(chunk):
     mod, w, n = _W["mod"], _W["writer"], 0
     for line in chunk:
         t = C.decode(line) if isinstance(line, str) else line
-        for rec in _W["fn"](t):
-            w.write(rec)
-            n += 1
+        # every case runs under an alarm: a library call that loops is an observation, not a stuck check
+        signal.setitimer(signal.ITIMER_REAL, CASE_TIMEOUT if _W["hangs"] < 2 else max(3.0, CASE_TIMEOUT / 15))
+        try:
+            for rec in _W["fn"](t):
+                w.write(rec)
+                n += 1
+            signal.setitimer(signal.ITIMER_REAL, 0)
+        except CaseHang:
+            signal.setitimer(signal.ITIMER_REAL, 0)
+            _W["hangs"] += 1
+            hp = "%s_hang_w%05d.ndjson" % (_W["prefix"], os.getpid())
+            with open(hp, "a") as fh:
+                fh.write(json.dumps({"fam": _W["modname"], "hang": True, "op": _opname(t), "record": t,
+                                     "k": "%s:%d" % (os.path.basename(hp), _W["hangs"])}) + "\n")
     if w.f:
         w.f.flush()
     return n
@@ -31,7 +64,7 @@ def _work(chunk):
 def replay_stream(chunks, modname, prefix, shard=15000, procs=None, setup_args=(), fn="replay"):
     """chunks: iterable of lists of cases (raw TLC data lines or decoded dicts).
     Returns (n_records, [obs files])."""
-    for f in glob.glob(prefix + "_w*.ndjson"):
+    for f in glob.glob(prefix + "_w*.ndjson") + glob.glob(prefix + "_hang_w*.ndjson"):
         os.remove(f)
     procs = procs or max(2, C.NCPU - 2)
     total = 0
@@ -42,4 +75,9 @@ def replay_stream(chunks, modname, prefix, shard=15000, procs=None, setup_args=(
         pool.close()
         pool.join()
     files = sorted(glob.glob(prefix + "_w*.ndjson"))
+    for hp in sorted(glob.glob(prefix + "_hang_w*.ndjson")):
+        HANG_FILES.append(hp)
+        for line in open(hp):
+            r = json.loads(line)
+            HANG_VERDICTS.append(["VIOL", "*", "CallReturns", r["k"], [modname, r["op"]]])
     return total, files
